@@ -19,7 +19,7 @@ from vmon.res import Result, exc_name
 
 ID = "C10"
 LEVEL = "exploration"
-CASES = {"quick": 20000, "thorough": 400000}
+CASES = {"quick": 20000, "thorough": 600000}
 RULE = ("seeded random sequences (list/tuple/generator/ndarray, length 0-12) over bool,int,float,str,date,datetime,timedelta,bytes,opaque "
         "objects with None / float nan / np.float64 nan / NaT in any position, homogeneous or mixed, Python or NumPy scalars, with and "
         "without an explicit dtype in {float,int,str,object,datetime64[D],datetime64[us]}; non-trivial = length >= 2 and at least one "
